@@ -57,6 +57,7 @@ L_MEAS = [
     ("noop", "meas"),
 ]
 L_TAG = [
+    ("tags_mapkey", "f_ident", "k", "==", SYM),
     ("tag", "k", OP, SYM),
     ("tag_exists", "k"),
     ("tag_re", "k", "matches", "a|", 0),
@@ -97,6 +98,14 @@ COMPOUNDS = [
     ("and", A, ("or", B, C)),
     ("or", ("not", D), M),
     ("and", M, ("not", B2)),
+    # the same with the operands swapped: a sub-query the index cannot answer exactly on either side
+    ("and", B, ("not", C)),
+    ("or", M, ("not", D)),
+    ("and", B, ("field_map", "f", "f_neg", "<", SYM)),
+    ("or", ("field_map", "f", "f_neg", "<", SYM), B),
+    ("and", B, ("noop", "field")),
+    ("and", ("tags_mapkey", "f_ident", "k", "==", "a"), ("field_exists", "f")),
+    ("and", ("field_exists", "f"), ("tags_mapkey", "f_ident", "k", "==", "a")),
 ]
 
 
